@@ -49,7 +49,7 @@ pub fn check_decode(shape: &Shape, input: &[u8], canonical: bool, l: &mut Local)
                 ));
             }
             let consumed = input.len() - rem.len();
-            if consumed != d.consumed || rem.as_ptr() != input[d.consumed..].as_ptr() {
+            if consumed != d.consumed || (!rem.is_empty() && rem.as_ptr() != input[d.consumed..].as_ptr()) {
                 return Err(fail(
                     "decode",
                     format!("consumed {} bytes, specification says {} (input {})", consumed, d.consumed, hex(input)),
